@@ -150,7 +150,8 @@ Proof. unfold col_of. cbn [fst snd]. destruct (pd_of_series s). reflexivity. Qed
 Lemma pd_of_series_length s : length (snd (pd_of_series s)) = length (scells s).
 Proof.
   unfold pd_of_series. destruct (sdt s); try reflexivity.
-  destruct (scells s) as [|c r]; [reflexivity|]. destruct (forallb is_str (c :: r)); reflexivity.
+  destruct (forallb is_none (scells s)); [reflexivity|].
+  destruct (forallb is_str_or_none (scells s)); [apply map_length|reflexivity].
 Qed.
 
 Lemma col_of_cells_length k s : length (pccells (col_of (k, s))) = length (scells s).
@@ -1385,3 +1386,8 @@ Proof.
     unfold pd_index in H. rewrite K in H. inversion H; subst ix. cbn [ikd idt ilabels] in R1, R2. rewrite T in R2.
     destruct (fspan m') as [k' l'], (fspan m) as [k0 l0]. cbn [spkind splabels] in *. subst. reflexivity.
 Qed.
+
+(* ------------------------------------------------------------------ extra positional arguments of from_dataframe *)
+Lemma from_dataframe_call_spec n c t :
+  from_dataframe_call n c t = (if Nat.eqb n 0 then from_table c t else TErr TypeError).
+Proof. destruct n; reflexivity. Qed.
